@@ -497,6 +497,7 @@ def run(repo: Repo, ctx) -> None:
     _run_main(repo, ctx)
     _r5(repo, ctx)
     _r6(repo, ctx)
+    _r7(repo, ctx)
 
 
 VOL = 'edb.edgeql.compiler.inference.volatility'
@@ -703,3 +704,68 @@ def _r6(repo: Repo, ctx) -> None:
            '(e.g. Volatile with a deleting body): calls are then compiled '
            'without MODIFICATIONS', cf.loc,
            sample='spec < inferred -> InvalidFunctionDefinitionError')
+
+
+def _r7(repo: Repo, ctx) -> None:
+    """C08.R7
+    (a) volatility memo: `__infer_set` stores a *provisional* volatility for
+        a Set before it has looked at the set's shape (to cut recursion); the
+        entry point therefore has to overwrite the entry with the final
+        result (`cache[ir] = result`), not keep what is there
+        (`setdefault`).  Otherwise every later lookup of a Set whose shape
+        contains DML answers with the pre-shape value, a writing function
+        body is not inferred Modifying, and calls to it carry no
+        MODIFICATIONS.
+    (b) SQL units: every statement with a transaction action gets the
+        TRANSACTION capability where the action is determined
+        (`unit.tx_action is not None`), not from the per-unit control flags,
+        which do not exist for RELEASE SAVEPOINT."""
+    from ..absint import Facts
+    ctx.floor('C08.R7', 2)
+    VOL = 'edb.edgeql.compiler.inference.volatility'
+    vm = repo.module(VOL)
+    entry = vm.functions.get('_infer_volatility')
+    if entry is None:
+        raise AnalysisError('C08.R7: _infer_volatility not found')
+    ctx.saw(entry)
+    prov = [f.name for f in repo._funcs_of(vm) if f is not entry and any(
+        isinstance(a, ast.Assign) and isinstance(
+            a.targets[0], ast.Subscript) and norm(
+            a.targets[0].value).endswith('inferred_volatility')
+        for a in ast.walk(f.node))]
+    final = [a for a in ast.walk(entry.node) if isinstance(a, ast.Assign)
+             and isinstance(a.targets[0], ast.Subscript) and norm(
+                 a.targets[0].value).endswith('inferred_volatility')]
+    keeps = [norm(c)[:50] for c in ast.walk(entry.node)
+             if isinstance(c, ast.Call) and isinstance(c.func, ast.Attribute)
+             and c.func.attr == 'setdefault' and norm(
+                 c.func.value).endswith('inferred_volatility')]
+    ctx.ob('C08.R7', '_infer_volatility:final-result-overwrites',
+           not prov or (bool(final) and not keeps),
+           f'{prov} store a provisional volatility in the memo, but '
+           f'_infer_volatility does not overwrite it with the final result '
+           f'({keeps or "no store"}): the provisional (pre-shape) value '
+           f'survives and DML inside a shape is not seen by later lookups',
+           entry.loc, sample='env.inferred_volatility[ir] = result')
+    # (b)
+    cs = repo.func('edb.server.compiler.sql._compile_sql')
+    ctx.saw(cs)
+    hits = []
+    for t in ast.walk(cs.node):
+        if isinstance(t, ast.If) and any(
+                isinstance(a, ast.AugAssign) and isinstance(a.op, ast.BitOr)
+                and 'TRANSACTION' in norm(a.value) and norm(
+                    a.target).endswith('.capabilities')
+                for a in t.body):
+            unit = [norm(a.target).rsplit('.', 1)[0] for a in t.body
+                    if isinstance(a, ast.AugAssign)][0]
+            fx = Facts({f'{unit}.tx_action is not None': True},
+                       fn_node=cs.node)
+            hits.append(fx.eval(t.test))
+    ctx.ob('C08.R7', '_compile_sql:transaction-capability-follows-tx_action',
+           any(v is True for v in hits),
+           'SQL units no longer get the TRANSACTION capability under '
+           '`unit.tx_action is not None` in _compile_sql: actions without a '
+           'per-unit control flag (RELEASE SAVEPOINT) are reported with no '
+           'capability at all', cs.loc,
+           sample='if unit.tx_action is not None: caps |= TRANSACTION')
